@@ -192,6 +192,10 @@ def _request(svc):
         r = N_CREATE()
         r.MessageID, r.AffectedSOPClassUID, r.AffectedSOPInstanceUID = MSG_ID, MPPS, "1.2.3.4"
         return r, evt.EVT_N_CREATE
+    if svc == "NCREATE0":      # the request leaves the instance UID to the SCP
+        r = N_CREATE()
+        r.MessageID, r.AffectedSOPClassUID = MSG_ID, MPPS
+        return r, evt.EVT_N_CREATE
     if svc == "NDELETE":
         r = N_DELETE()
         r.MessageID, r.RequestedSOPClassUID, r.RequestedSOPInstanceUID = MSG_ID, FILM_SESSION, "1.2.3.4"
@@ -204,7 +208,7 @@ def _request(svc):
 
 
 DS_ATTR = {"FIND": "Identifier", "FINDREPO": "Identifier", "GET": "Identifier", "MOVE": "Identifier", "NGET": "AttributeList",
-           "NSET": "AttributeList", "NACTION": "ActionReply", "NCREATE": "AttributeList", "NEVENT": "EventReply"}
+           "NSET": "AttributeList", "NACTION": "ActionReply", "NCREATE": "AttributeList", "NCREATE0": "AttributeList", "NEVENT": "EventReply"}
 
 
 def execute(svc: str, script: list[dict], ts=IMPL) -> dict:
